@@ -874,7 +874,7 @@ impl Interp {
             let words = self.eval_word_vec(word_vec.words())?;
 
             if words.is_empty() {
-                break;
+                continue;
             }
 
             let name = words[0].as_str();
